@@ -223,9 +223,11 @@ def c16d(ctx):
         if len(eq) != 1 or const_int(eq[0].node["rv"]["b"]) != 1 or not any(x.kind == "call" and x.site == fs[0] for x in df.origins_of_operand(c, eq[0].node["rv"]["a"])):
             ctx.fail(o2, fs[0], "%s: the unpin decision must be `previous count == 1`" % fn)
         # unpin call control-dependent on that flag
-        guards = [sb for sb in df.switches(b) if b.bb_dominates(sb, up[0].bb)]
+        # ... on the bool the closure computed (a dominating `if let Some(..)` on the lookup result is not a guard)
+        guards = [sb for sb in df.switches(b) if b.bb_dominates(sb, up[0].bb) and df.switch_cond(b, sb).kind != "disc"
+                  and any(tb != up[0].bb and not b.edge_dominates((sb, tb), up[0].bb) for v, tb in df.switch_edges(b, sb))]
         if not guards:
-            ctx.fail(o2, up[0], "TinyLFU::unpin is called unconditionally in %s" % fn)
+            ctx.fail(o2, up[0], "TinyLFU::unpin in %s does not depend on `the counter dropped from 1`: an entry with unflushed writes of a later batch becomes evictable" % fn)
 
 
 def run(ctx):
